@@ -23,3 +23,7 @@ CLAIMED["C15"] = {"technique": _TECH,
 CLAIMED["C13"] = {"technique": _TECH,
     "text": "Proved for all inputs: a data item of any length 1..2^32-1 is pushed with the shortest push and an exact little-endian length, disassembles to itself and re-assembles to the same bytes; every defined non-push opcode name assembles to one byte and disassembles to the same operation (all names, finite); pushes and opcodes do not interfere (two-item combinations); witness stacks of 0..3 items with items of any length use CompactSize count and lengths and round-trip with arbitrary trailing bytes; every standard-template builder disassembles to exactly the intended opcodes and pushes for all argument sizes the template allows (multisig for n in {1,2,3,15,16}, every m). Not proved: the n-ary composition for item lists of unbounded length (needs an invariant over lists of strings).",
     "note": _NOTE + " Opcode numbers are compared with a table transcribed from Bitcoin Core's script.h for the opcodes the templates use."}
+
+CLAIMED["C17"] = {"technique": _TECH + "; the socket is a ghost object with a nondeterministic recv contract, so one proof covers every fragmentation",
+    "text": "recv_msg is proved under the socket model for EVERY fragmentation at once (loop invariants over the ghost stream position): a complete frame is returned as (magic, command, payload) with exactly 24+L bytes consumed (no over-read, so consecutive messages never bleed); wrong magic or checksum raises ValueError; a stream that ends early raises instead of looping (variant 24-len(msg) / L-len(payload) strictly decreases). msg_ser equals the frame spec for every known command and rejects unknown commands and oversize payloads. Codec round trips proved for all field values: ping, version, inventory (all six types), network address, getheaders/inv/addr with 0..3 entries, and the getheaders CompactSize count prefix for every count < 2^64.",
+    "note": _NOTE + " A-sock (socket model), A-clock, A-checksum: 'a flipped payload bit is rejected' holds modulo a 32-bit truncated-hash collision and is not proved. Entry lists of unbounded length in getheaders/inv/addr are not covered (structural lists of 0..3 entries only)."}
